@@ -378,6 +378,51 @@ func init() {
 			}
 		}
 
+		// a real truncation (the "cut found" early exit of the first walk, then the persisting and deleting
+		// walks) on a chain longer than the truncation distance: it must return and leave the ledger usable
+		{
+			w := NewWorld(c)
+			n := w.NewNode()
+			w.NewWallet()
+			w.NewWallet()
+			w.Genesis(n, w.wallets[0].Address(), spice.Melange{Currency: 100000})
+			w.quiet = true
+			for i := 0; i < 1060; i++ {
+				var t transaction.Transaction
+				if i%2 == 0 {
+					t = w.NewTrx(w.wallets[0], w.wallets[1].Address(), spice.Melange{SupplementaryCurrency: 1}, nil)
+				} else {
+					t = w.NewTrx(w.wallets[1], w.wallets[0].Address(), spice.Melange{}, []byte("x"))
+				}
+				w.Propose(n, &t)
+			}
+			info := map[string]interface{}{"section": "wedge", "op": "truncate-long-chain"}
+			c.Mark(info)
+			var terr error
+			r := withDeadline(30*time.Second, func() { terr = n.ab.VerifTruncate(context.Background()) })
+			c.Rep.Evals++
+			c.Count("truncate-long-chain." + r[:2])
+			c.Distinct("truncate-long-chain")
+			if r != "ok" {
+				c.Violate("C08", "truncate-never-returns", fmt.Sprintf("truncation of a chain of 1060 vertices: %s (err %v)", r, terr), info)
+				return nil // the ledger lock is held by the stuck truncation: nothing more to learn in this process
+			}
+			okAll := true
+			for i := 0; okAll && i < 5; i++ {
+				okAll = w.probe(n, "truncate-long-chain", info)
+			}
+			if okAll {
+				r := withDeadline(5*time.Second, func() {
+					n.ab.CalculateBalance(context.Background(), w.wallets[0].Address())
+					for range n.ab.StreamDAG(context.Background()) {
+					}
+				})
+				if r != "ok" {
+					c.Violate("C08", "reads-hang-after-truncation", "balance / stream after a truncation: "+r, info)
+				}
+			}
+			w.Close()
+		}
 		// truncate trigger on a short DAG (inflated weight offered by gossip), then > 50 proposals
 		{
 			w, n := buildChain(c, 3, spice.Melange{Currency: 100})
